@@ -412,10 +412,15 @@ class VArr(_Generic):
     def __repr__(self): return f"VArr({self.shape_}, {self.dtype_})"
 
 
+MEAN = {}
+
+
 def reduce_mean(arr):
-    """mean over all voxels: an uninterpreted number per array term"""
-    cx = ctx()
-    return SV(cx.fresh("mean"))
+    """mean over all voxels: one uninterpreted number per array (keyed by the generic element term)"""
+    key = z3.simplify(arr.elem.t).sexpr() if isinstance(arr.elem, SV) else repr(arr.elem)
+    if key not in MEAN:
+        MEAN[key] = z3.Real(f"mean_of_array_{len(MEAN)}")
+    return SV(MEAN[key])
 
 
 def _map(e, f):
